@@ -92,18 +92,40 @@ def agrees(model, real):
     return ms == rs and mt == rt
 
 
-def run_case(binary, idx, timeout=4):
-    """run one layout in a fresh process; on a hang (undefined behaviour can loop) keep what was printed so far"""
-    import subprocess
-    p = subprocess.Popen([binary], stdin=subprocess.PIPE, stdout=subprocess.DEVNULL, stderr=subprocess.PIPE)
+def _cpu_seconds(pid):
     try:
-        _, se = p.communicate(("%d\n" % idx).encode(), timeout=timeout)
-        rc = p.returncode
-    except subprocess.TimeoutExpired:
-        p.kill()
-        _, se = p.communicate()
-        rc = "timeout"
-    se = se[:200000].decode("utf-8", "replace")
+        f = open("/proc/%d/stat" % pid).read().rsplit(")", 1)[1].split()
+        return (int(f[11]) + int(f[12])) / float(os.sysconf("SC_CLK_TCK"))
+    except Exception:
+        return 0.0
+
+
+def run_case(binary, idx, cpu_limit=2.0, wall_limit=180):
+    """Run one layout in a fresh process. A layout needs milliseconds; undefined behaviour can loop forever, so the run is
+    cut when the process has BURNT `cpu_limit` seconds of CPU (not wall time: the machine may be busy) and what it printed
+    so far is kept."""
+    import subprocess
+    import tempfile
+    with tempfile.TemporaryFile() as ef:
+        p = subprocess.Popen([binary], stdin=subprocess.PIPE, stdout=subprocess.DEVNULL, stderr=ef)
+        try:
+            p.stdin.write(("%d\n" % idx).encode())
+            p.stdin.close()
+        except OSError:
+            pass
+        t0 = time.time()
+        while True:
+            try:
+                rc = p.wait(timeout=0.05)
+                break
+            except subprocess.TimeoutExpired:
+                if _cpu_seconds(p.pid) >= cpu_limit or time.time() - t0 > wall_limit:
+                    p.kill()
+                    p.wait()
+                    rc = "timeout"
+                    break
+        ef.seek(0)
+        se = ef.read(200000).decode("utf-8", "replace")
     return canon_real(se, rc)
 
 
@@ -167,7 +189,7 @@ def run_all(bins, n, workers=8):
 
 def run(ctx, args):
     quick = ctx.tier == "quick"
-    n_gen = 260 if quick else 3000
+    n_gen = int(os.environ.get("VERIF_C04_N", "230" if quick else "1500"))
     rng = ctx.rng
     st = lean_check(ctx, ["LlgoVerif.Props.C04"], ["LlgoVerif/Props/C04.lean"],
                     extra_files=["LlgoVerif/Model/Defer.lean", "LlgoVerif/Spec/DeferSem.lean", "LlgoVerif/Lemmas/Defer.lean"],
@@ -183,9 +205,12 @@ def run(ctx, args):
 
     corpus = load_corpus()
     batches = []
-    per = 300
+    per = 300 if quick else 500
     gen = [dg.gen_case(rng, "gen-%d" % i) for i in range(n_gen)]
-    allc = corpus + gen
+    # systematic single-function layouts: every sequence of <= 1 (quick) / <= 3 (thorough) defer statements over
+    # {top level, taken if, skipped if, for of 0 / 2 iterations} x {with, without argument node} x fault position
+    enum = dg.enum_cases(1 if quick else int(os.environ.get("VERIF_C04_ENUM", "3")))
+    allc = corpus + enum + gen
     for i in range(0, len(allc), per):
         batches.append(allc[i:i + per])
 
